@@ -216,6 +216,16 @@ impl WorldGenerator for Markdown {
             match &event {
                 Event::Start(Tag::Link { .. }) => in_link = true,
                 Event::End(TagEnd::Link) => in_link = false,
+                // Documentation may contain raw `<a href=..>..</a>` anchors,
+                // which are links as far as html is concerned.
+                Event::InlineHtml(raw) | Event::Html(raw) => {
+                    let raw = raw.trim_start().to_ascii_lowercase();
+                    if raw.starts_with("</a") {
+                        in_link = false;
+                    } else if raw.starts_with("<a ") || raw.starts_with("<a>") {
+                        in_link = true;
+                    }
+                }
                 Event::Code(code) if !in_link => {
                     if let Some(dst) = self.hrefs.get(code.as_ref()) {
                         let tag = Tag::Link {
